@@ -92,12 +92,12 @@ fn cmd_drive(args: &[String]) -> i32 {
     {
         let pre = drive::run_batch(ctx.clone(), Arc::new(Corpus { collisions: corpus.collisions.clone(), item_groups: corpus.item_groups.clone(), name_groups: corpus.name_groups.clone(), base: corpus.base.clone(), faults: corpus.faults.clone(),
                                                                derives: corpus.derives.clone(), env_names: vec![] }),
-                                   Arc::new(RefCache::new()), seed ^ 0x5eed_d15c, 0, 24, jobs, 0);
+                                   Arc::new(RefCache::new()), seed ^ 0x5eed_d15c, 0, 24, jobs, 0, true);
         corpus.env_names = pre.stats.seam_names.iter().map(|n| (n.clone(), envmodel::candidates(n, &repo))).collect();
     }
     let corpus = Arc::new(corpus);
     let refs = Arc::new(RefCache::new());
-    let res = drive::run_batch(ctx.clone(), corpus.clone(), refs.clone(), seed, start, n, jobs, selfcheck);
+    let res = drive::run_batch(ctx.clone(), corpus.clone(), refs.clone(), seed, start, n, jobs, selfcheck, false);
     let st = res.stats;
     let run_s = t0.elapsed().as_secs_f64();
     std::fs::create_dir_all(&replay_dir).ok();
